@@ -1,5 +1,5 @@
 (* C14: lemmas about the overload interpreter and the forwarding theorem. *)
-From Coq Require Import List String Bool Arith.
+From Coq Require Import List String Bool Arith Permutation.
 Import ListNotations.
 Require Import MV.Builtins.Binding MV.Builtins.Overload MV.Builtins.DocSigs MV.Builtins.BuiltinsCheck.
 Local Open Scope string_scope.
@@ -120,6 +120,140 @@ Proof.
   assert (I : In (args, kws) (bad_shapes T b d)) by (rewrite E; left; reflexivity).
   unfold bad_shapes in I. apply filter_In in I. destruct I as [I N]. simpl in N.
   exists args, kws. split; [exact I|]. intro G. apply good_good_b in G. rewrite G in N. discriminate.
+Qed.
+
+(* ---- the order of keyword arguments ---- *)
+Lemma mem_In : forall k l, mem k l = true <-> In k l.
+Proof.
+  intros k l; induction l as [|x l IH]; simpl; [split; [discriminate|tauto]|].
+  destruct (String.eqb k x) eqn:E.
+  - apply String.eqb_eq in E. subst. tauto.
+  - apply String.eqb_neq in E. rewrite IH. split; [tauto|]. intros [H|H]; [congruence|exact H].
+Qed.
+Lemma mem_perm : forall k l l', Permutation l l' -> mem k l = mem k l'.
+Proof.
+  intros k l l' P. destruct (mem k l) eqn:A; destruct (mem k l') eqn:B; auto.
+  - apply mem_In in A. apply (Permutation_in _ P) in A. apply mem_In in A. congruence.
+  - apply mem_In in B. apply (Permutation_in _ (Permutation_sym P)) in B. apply mem_In in B. congruence.
+Qed.
+Lemma nodup_keys_NoDup : forall l, nodup_keys l = true <-> NoDup l.
+Proof.
+  induction l as [|k l IH]; simpl; [split; [constructor|reflexivity]|].
+  rewrite andb_true_iff, negb_true_iff, IH. split.
+  - intros [A B]; constructor; auto. intro I. apply mem_In in I. congruence.
+  - intro N; inversion N; subst. split; auto. destruct (mem k l) eqn:E; auto. apply mem_In in E. contradiction.
+Qed.
+Lemma nodup_keys_perm : forall l l', Permutation l l' -> nodup_keys l = nodup_keys l'.
+Proof.
+  intros l l' P. destruct (nodup_keys l) eqn:A; destruct (nodup_keys l') eqn:B; auto.
+  - apply nodup_keys_NoDup in A. apply (Permutation_NoDup P) in A. apply nodup_keys_NoDup in A. congruence.
+  - apply nodup_keys_NoDup in B. apply (Permutation_NoDup (Permutation_sym P)) in B. apply nodup_keys_NoDup in B. congruence.
+Qed.
+Lemma forallb_perm : forall B (f : B -> bool) l l', Permutation l l' -> forallb f l = forallb f l'.
+Proof.
+  intros B f l l' P; induction P; simpl; auto.
+  - rewrite IHP; reflexivity.
+  - destruct (f x), (f y); reflexivity.
+  - congruence.
+Qed.
+
+Section P.
+  Context {A : Type}.
+  Lemma lookup_In : forall k (l : list (string * A)) v, NoDup (map fst l) -> In (k, v) l -> lookup k l = Some v.
+  Proof.
+    intros k l v; induction l as [|[x w] l IH]; simpl; intros N I; [destruct I|].
+    inversion N; subst. destruct I as [E|I].
+    - injection E as -> ->. rewrite String.eqb_refl. reflexivity.
+    - destruct (String.eqb k x) eqn:E; auto. apply String.eqb_eq in E; subst.
+      exfalso. apply H1. change x with (fst (x, v)). apply in_map. exact I.
+  Qed.
+  Lemma lookup_None : forall k (l : list (string * A)), lookup k l = None -> ~ In k (map fst l).
+  Proof.
+    intros k l; induction l as [|[x w] l IH]; simpl; intros H; [tauto|].
+    destruct (String.eqb k x) eqn:E; [discriminate|]. apply String.eqb_neq in E.
+    intros [F|F]; [congruence|]. exact (IH H F).
+  Qed.
+  Lemma lookup_Some_In : forall k (l : list (string * A)) v, lookup k l = Some v -> In (k, v) l.
+  Proof.
+    intros k l v; induction l as [|[x w] l IH]; simpl; intros H; [discriminate|].
+    destruct (String.eqb k x) eqn:E; auto. apply String.eqb_eq in E; subst. injection H as ->. left; reflexivity.
+  Qed.
+  Lemma lookup_perm : forall k (l l' : list (string * A)), NoDup (map fst l) -> Permutation l l' ->
+    lookup k l = lookup k l'.
+  Proof.
+    intros k l l' N P. assert (N' : NoDup (map fst l')) by (eapply Permutation_NoDup; [apply Permutation_map; exact P|exact N]).
+    destruct (lookup k l) as [v|] eqn:E.
+    - apply lookup_Some_In in E. apply (Permutation_in _ P) in E. symmetry. apply lookup_In; assumption.
+    - destruct (lookup k l') as [v|] eqn:E'; auto. apply lookup_Some_In in E'.
+      apply (Permutation_in _ (Permutation_sym P)) in E'. apply lookup_None in E. exfalso. apply E.
+      change k with (fst (k, v)). apply in_map. exact E'.
+  Qed.
+  Lemma bind_params_ext : forall ps i args (kws kws' : list (string * A)),
+    (forall k, lookup k kws = lookup k kws') -> bind_params ps i args kws = bind_params ps i args kws'.
+  Proof.
+    induction ps as [|p ps IH]; intros i args kws kws' H; simpl; auto.
+    rewrite (H (pname p)). rewrite (IH _ args kws kws' H). reflexivity.
+  Qed.
+  Lemma filter_known_nil : forall names (kws : list (string * A)),
+    forallb (fun k => mem k names) (map fst kws) = true ->
+    filter (fun kv => negb (mem (fst kv) names)) kws = [].
+  Proof.
+    intros names kws; induction kws as [|[k v] l IH]; simpl; auto.
+    intros H. apply andb_prop in H. destruct H as [H1 H2]. rewrite H1. simpl. auto.
+  Qed.
+
+  (* a function without **kwargs does not see the order of the keyword arguments *)
+  Lemma bind_perm : forall s args (kws kws' : list (string * A)),
+    varkw s = None -> Permutation kws kws' -> bind s args kws = bind s args kws'.
+  Proof.
+    intros s args kws kws' NV P. unfold bind, keys_ok. rewrite NV.
+    assert (PK : Permutation (map fst kws) (map fst kws')) by (apply Permutation_map; exact P).
+    rewrite <- (nodup_keys_perm _ _ PK), <- (forallb_perm _ _ _ _ PK).
+    destruct (nodup_keys (map fst kws)) eqn:N; [|reflexivity].
+    destruct (forallb _ (map fst kws)) eqn:F; [|reflexivity].
+    simpl. destruct (arity_ok s args); [|reflexivity].
+    apply nodup_keys_NoDup in N.
+    rewrite (bind_params_ext (params s) 0 args kws kws') by (intro k; apply lookup_perm; assumption).
+    destruct (bind_params _ _ _ kws'); [|reflexivity].
+    rewrite (filter_known_nil _ kws F).
+    rewrite (forallb_perm _ _ _ _ PK) in F. rewrite (filter_known_nil _ kws' F). reflexivity.
+  Qed.
+  Lemma bind_doc_perm : forall d args (kws kws' : list (string * A)),
+    varkw (dsig d) = None -> Permutation kws kws' -> bind_doc d args kws = bind_doc d args kws'.
+  Proof. intros; unfold bind_doc. rewrite (bind_perm _ _ kws kws'); auto. Qed.
+End P.
+
+Lemma run_overload_perm : forall V truthy reg T b f fd (pa : list (val V)) ka ka',
+  assoc b (fmap T) = Some f -> assoc f (fns T) = Some fd -> varkw (fsig fd) = None ->
+  Permutation ka ka' ->
+  run_overload truthy reg T b pa ka = run_overload truthy reg T b pa ka'
+  \/ mem b (supported T) = false.
+Proof.
+  intros V truthy reg T b f fd pa ka ka' M F NV P. unfold run_overload.
+  destruct (mem b (supported T)); [left|right; reflexivity].
+  rewrite M. simpl. rewrite F. rewrite (bind_perm _ pa ka ka' NV P). reflexivity.
+Qed.
+
+Lemma doc_no_varkw : forall b d, doc_of b = Some d -> varkw (dsig d) = None.
+Proof.
+  intros b d. unfold doc_of.
+  repeat match goal with |- context [if ?c then _ else _] => destruct c end;
+    intros H; try discriminate H; injection H as <-; reflexivity.
+Qed.
+
+Lemma good_perm : forall V (truthy : V -> option bool) reg T b d f fd args kws kws',
+  mem b (supported T) = true -> doc_of b = Some d ->
+  assoc b (fmap T) = Some f -> assoc f (fns T) = Some fd -> varkw (fsig fd) = None ->
+  Permutation kws kws' ->
+  good truthy reg T b d args kws -> good truthy reg T b d args kws'.
+Proof.
+  intros V truthy reg T b d f fd args kws kws' S D M F NV P G.
+  assert (PL : Permutation (lift_kws kws) (lift_kws kws')) by (apply Permutation_map; exact P).
+  unfold good in *. intros bnd H.
+  rewrite <- (bind_doc_perm d _ _ _ (doc_no_varkw b d D) PL) in H.
+  specialize (G bnd H).
+  destruct (run_overload_perm V truthy reg T b f fd (lift_args args) _ _ M F NV PL) as [E|E]; [|congruence].
+  rewrite <- E. exact G.
 Qed.
 
 (* ---- tactics for the per-builtin proofs over the generated table ---- *)
